@@ -621,7 +621,7 @@ func ruleSplitLoopDrains(c *eng.Ctx) {
 		if !ok || want {
 			return false
 		}
-		g := call.Call.StaticCallee()
+		g := eng.StaticCallee(call)
 		if g == nil || len(g.Blocks) == 0 || len(g.Params) == 0 || len(call.Call.Args) == 0 || call.Call.Args[0] != stBase {
 			return false
 		}
@@ -802,7 +802,7 @@ func ruleSectionPathChain(c *eng.Ctx) {
 	var pushers []*ssa.Function
 	seen := map[*ssa.Function]bool{}
 	for _, ci := range eng.Calls(page, true, func(string, ssa.CallInstruction) bool { return true }) {
-		h := ci.Common().StaticCallee()
+		h := eng.StaticCallee(ci)
 		if h == nil || !eng.InModule(h) || h.Blocks == nil || seen[h] {
 			continue
 		}
